@@ -5,6 +5,7 @@ import (
 	"errors"
 	"fmt"
 	"io"
+	"net/mail"
 	"os"
 
 	"github.com/inbucket/inbucket/v3/pkg/config"
@@ -213,6 +214,23 @@ func (h *Host) handleBeforeMessageStored(msg event.InboundMessage) *event.Inboun
 		return nil
 	}
 	defer h.pool.putState(ls)
+
+	// The script works on its own copy of the addresses and mailbox list: unless it returns
+	// the message, nothing it does to it may reach the message being delivered.
+	if msg.From != nil {
+		from := *msg.From
+		msg.From = &from
+	}
+	to := make([]*mail.Address, 0, len(msg.To))
+	for _, a := range msg.To {
+		if a != nil {
+			addr := *a
+			a = &addr
+		}
+		to = append(to, a)
+	}
+	msg.To = to
+	msg.Mailboxes = append([]string(nil), msg.Mailboxes...)
 
 	logger.Debug().Msgf("Calling Lua function with %+v", msg)
 	if err := ls.CallByParam(
